@@ -49,7 +49,10 @@ static void misuse_overflow(void) {
   /* sizes: anything up to 3000, with the sizes below one word and around the word multiples over-represented; the block may have been
      shrunk in place before (its padding was adjusted), and it may be freed by another thread */
   size_t n;
-  switch (vf_randn(4)) { case 0: n = 1 + (size_t)vf_randn(8); break; case 1: n = 8 * (1 + (size_t)vf_randn(16)) + (size_t)vf_randn(3) - 1; break; default: n = 1 + (size_t)vf_randn(3000); }
+  switch (vf_randn(8)) { case 0: case 1: n = 1 + (size_t)vf_randn(8); break; case 2: case 3: n = 8 * (1 + (size_t)vf_randn(16)) + (size_t)vf_randn(3) - 1; break;
+                         case 4: n = 3001 + (size_t)vf_randn(62000); break;                         /* medium blocks */
+                         case 5: n = 65537 + (size_t)vf_randn(vf_randn(3) ? 900000 : 12000000); break;   /* large blocks (a page of their own, not huge) */
+                         default: n = 1 + (size_t)vf_randn(3000); }
   int s = op_alloc_ex(vf_randn(2) ? A_malloc : A_zalloc, n, 0, 0, 0, 0); if (s < 0) return;
   int shrunk = 0;
   if (n > 16 && vf_randn(4) == 0) {      /* shrink in place (less than half of the block is given up): the padding moves with the size */
@@ -90,8 +93,17 @@ static void misuse_forged_link(void) {
   op_free_slot(s, FR_free);
   /* overwrite the link word of the freed block */
   uintptr_t forged;
-  switch (vf_randn(4)) { case 0: forged = 0; break; case 1: forged = (uintptr_t)slots[other].p; break; case 2: forged = (uintptr_t)&errs[0]; break; default: forged = (uintptr_t)vf_rand(); }
+  int fk = (int)vf_randn(6);
+  switch (fk) { case 0: forged = 0; break; case 1: forged = (uintptr_t)slots[other].p; break; case 2: forged = (uintptr_t)&errs[0]; break; default: forged = (uintptr_t)vf_rand(); }
   ((mi_block_t*)p)->next = (mi_encoded_t)forged;
+  if (fk >= 4) {
+    /* a value that DECODES to a live block in another page of the same segment (a block of another size class), or to the middle of
+       a live block of that kind: the worst an overwritten link can be while still pointing outside the block's own area */
+    void* target = NULL;
+    for (int t = 0; t < MAXSLOTS && target == NULL; t++)
+      if (slots[t].p && _mi_ptr_segment(slots[t].p) == _mi_ptr_segment(p) && _mi_ptr_page(slots[t].p) != page && slots[t].us >= 32) target = (uint8_t*)slots[t].p + (fk == 5 ? 16 : 0);
+    if (target != NULL) mi_block_set_nextx(page, (mi_block_t*)p, (mi_block_t*)target, page->keys);
+  }
   mi_block_t* dec = mi_block_nextx(page, (mi_block_t*)p, page->keys);
   const char* cls = (dec == NULL ? "null" : (mi_is_in_same_page(p, dec) ? "same" : "other"));
   nerrs = 0;
